@@ -99,7 +99,7 @@ SeenAcc(i) == known' = [known EXCEPT ![i] = [@ EXCEPT !.lastAcc = now]]
 \* externalised (the implementation revives it): such requests are outside the specification.
 SelfAccessOK(i) == Adapter \/ mem[i] = Null \/ ~Expired(mem, i, now)
 
-Log(rec) == resp' = rec /\ hist' = Append(hist, rec)
+Log(rec) == resp' = rec /\ hist' = IF L = 0 THEN hist ELSE Append(hist, rec)    \* L = 0: exhaustive configurations carry no log
 Alive(m) == {i \in Inst : m[i] # Null}
 Steps(m) == [i \in Alive(m) |-> IF m[i].sess = NoSess THEN 0 ELSE m[i].sess.clock]
 
